@@ -44,16 +44,18 @@ var relayClasses = []weighted{
 	{3, "relay", []string{"err", "400"}},
 	{2, "relay", []string{"err", "err", "err", "block"}},
 	{2, "relay", []string{"err", "slow"}},
+	{8, "relay", []string{"late"}},
 	{4, "nounblind", nil},
 }
 
 // drawRelay draws a relay script; faultyOnly restricts it to relays that do not
-// hand out the block at the first request.
+// hand out the block promptly at the first request (these include the "late"
+// relay, which does deliver, but only after 1.3 s).
 func drawRelay(t *rapid.T, faultyOnly bool) RelaySpec {
 	var classes []weighted
 	total := 0
 	for _, c := range relayClasses {
-		if faultyOnly && len(c.steps) > 0 && delivers(c.steps[0]) {
+		if len(c.steps) > 0 && ((faultyOnly && immediate(c.steps[0])) || (!faultyOnly && c.steps[0] == "late")) {
 			continue
 		}
 		classes = append(classes, c)
@@ -98,7 +100,9 @@ func someU64(t *rapid.T, label string) uint64 {
 	return rapid.Uint64().Draw(t, label)
 }
 
-func delivers(s string) bool { return s == "block" || s == "slow" || s == "sync" }
+func immediate(s string) bool { return s == "block" || s == "slow" || s == "sync" }
+
+func delivers(s string) bool { return immediate(s) || s == "late" }
 
 func stepOf(r RelaySpec, i int) string {
 	if len(r.Steps) == 0 {
@@ -127,8 +131,9 @@ func candidates(c *Case) []int {
 	return all
 }
 
-// deliveryWithin: some candidate relay hands out the block within n attempts.
-func deliveryWithin(c *Case, n int) bool {
+// deliveryWithin: some candidate relay hands out the block within n attempts
+// (promptly, if prompt is set).
+func deliveryWithin(c *Case, n int, prompt bool) bool {
 	for _, i := range candidates(c) {
 		r := c.Relays[i]
 		if r.Kind != "relay" {
@@ -136,7 +141,7 @@ func deliveryWithin(c *Case, n int) bool {
 		}
 		for a := 0; a < n; a++ {
 			s := stepOf(r, a)
-			if delivers(s) {
+			if immediate(s) || (!prompt && delivers(s)) {
 				return true
 			}
 			if s == "400" || s == "hang" {
@@ -222,9 +227,15 @@ func genCase(t *rapid.T) Case {
 		c.GraffitiText = []byte(rapid.StringOfN(rapid.RuneFrom([]rune("abcXYZ019 -_")), 0, 32, 32).Draw(t, "graffitiText"))
 	}
 
+	if c.Graffiti != "none" && pct(t, 2, "slowGraffiti") {
+		// a provider backed by a slow source: costs real seconds, kept rare
+		c.GraffitiDelayMs = pick(t, []int{2200, 2600, 3000}, "graffitiDelayMs")
+	}
+
 	if c.Blinded {
-		// a blinded proposal without an auction result panics (C16): not generated
-		c.Auction = "result"
+		// mostly with an auction result; without one (no auctioneer, failed auction)
+		// nothing can unblind the block and nothing may be submitted
+		c.Auction = pick(t, []string{"result", "result", "result", "result", "result", "result", "result", "result", "absent", "error"}, "auctionBlinded")
 	} else {
 		c.Auction = pick(t, []string{"absent", "absent", "error", "error", "result", "result", "result"}, "auction")
 	}
@@ -246,6 +257,14 @@ func genCase(t *rapid.T) Case {
 			c.Relays = append(c.Relays, r)
 		}
 		c.UnblindAll = pct(t, 35, "unblindAll")
+		if faulty && len(c.Relays) >= 2 && pct(t, 25, "lateAndFailing") {
+			// two relays that are used together: one keeps failing, the other holds
+			// the payload but answers only after the first has used up its back-offs
+			i := uni(t, len(c.Relays), "lateRelay")
+			j := (i + 1 + uni(t, len(c.Relays)-1, "failingRelay")) % len(c.Relays)
+			c.Relays[i] = RelaySpec{Kind: "relay", Steps: []string{"late"}, Winner: !noWinner}
+			c.Relays[j] = RelaySpec{Kind: "relay", Steps: pick(t, [][]string{{"err"}, {"err"}, {"err", "err", "err", "block"}}, "failingSteps"), Winner: !noWinner}
+		}
 	}
 	c.ProposalErr = pct(t, 5, "proposalErr")
 	c.SignErr = pct(t, 8, "signErr")
@@ -253,7 +272,7 @@ func genCase(t *rapid.T) Case {
 
 	c.DeadlineMs = 20000
 	if c.Blinded {
-		if !faulty && !deliveryWithin(&c, 1) {
+		if !faulty && !deliveryWithin(&c, 1, true) {
 			// make the case cheap: one of the relays that is certainly used delivers at once
 			var capable []int
 			for _, i := range candidates(&c) {
@@ -266,11 +285,11 @@ func genCase(t *rapid.T) Case {
 				c.Relays[i].Steps = []string{pick(t, []string{"block", "slow", "sync"}, "fastStep")}
 			}
 		}
-		if !deliveryWithin(&c, 3) {
+		if !deliveryWithin(&c, 3, false) {
 			// nothing will arrive: Propose ends with its context (retry loop, C20's
 			// topic); bound it and let the deadline fall before, inside and after
 			// the retries
-			c.DeadlineMs = pick(t, []int{60, 350, 900}, "deadlineMs")
+			c.DeadlineMs = pick(t, []int{60, 350, 900}, "deadlineMs") + c.GraffitiDelayMs
 		}
 	}
 	return c
@@ -293,6 +312,7 @@ type observation struct {
 	proposals []proposalCall
 	sends     []relaySend
 	submits   []submitCall
+	graffitis []graffitiCall
 	empties   int
 }
 
@@ -371,7 +391,34 @@ func run(c *Case) *observation {
 		w.mu.Lock()
 		o.ctxExpired = ctx.Err() != nil
 		o.returnSeq = w.next()
+		submitted := false
+		for _, sub := range w.submits {
+			if !sub.dead {
+				submitted = true
+			}
+		}
 		w.mu.Unlock()
+		if !o.ctxExpired && !submitted && !o.hung {
+			// Propose gave up although its context is alive.  Relay requests that
+			// vouch made are possibly still being answered: let them finish under the
+			// same live context, so that the oracle can tell "no relay returns the
+			// block" from "vouch did not wait for the relay that does".
+			waitUntil := time.Now().Add(5 * time.Second)
+			for time.Now().Before(waitUntil) {
+				pending := false
+				w.mu.Lock()
+				for _, s := range w.sends {
+					if s.retSeq == 0 && delivers(s.outcome) {
+						pending = true
+					}
+				}
+				w.mu.Unlock()
+				if !pending {
+					break
+				}
+				time.Sleep(5 * time.Millisecond)
+			}
+		}
 		cancel()
 	}
 	w.mu.Lock()
@@ -382,6 +429,7 @@ func run(c *Case) *observation {
 		o.sends = append(o.sends, *s)
 	}
 	o.submits = append(o.submits, w.submits...)
+	o.graffitis = append(o.graffitis, w.graffitis...)
 	o.empties = w.emptyRequests
 	w.mu.Unlock()
 	return o
@@ -394,10 +442,6 @@ type finding struct{ sig, detail string }
 func excluded(c *Case) string {
 	if c.Blinded && !blindable(c.Version) {
 		return "excluded:blinded-before-bellatrix"
-	}
-	if c.Blinded && c.Auction != "result" {
-		// nil auction results are dereferenced in proposeBlock: property C16
-		return "excluded:c16-blinded-without-auction-result"
 	}
 	if !knownVersion(c.Version) {
 		return "excluded:unknown-version"
@@ -580,22 +624,58 @@ func judge(c *Case, o *observation) (fs []finding, labels []string, inconclusive
 		}
 		return fs, labels, ""
 	}
-	var wantGraffiti [32]byte
-	if c.Graffiti == "ok" {
-		copy(wantGraffiti[:], c.GraffitiText)
-	}
 	for _, p := range o.proposals {
+		// what the graffiti provider had answered by then (nothing, an error, or a text)
+		var wantGraffiti [32]byte
+		var last *graffitiCall
+		for i := range o.graffitis {
+			if o.graffitis[i].seq < p.seq {
+				last = &o.graffitis[i]
+			}
+		}
+		obtainedGraffiti := last != nil && last.err == nil
+		if obtainedGraffiti {
+			copy(wantGraffiti[:], last.ret)
+		}
 		if p.opts.Graffiti != wantGraffiti {
-			if c.Graffiti == "ok" {
-				add("graffiti-not-passed", "proposal requested with graffiti %q; the provider returned %q", p.opts.Graffiti[:], c.GraffitiText)
+			if obtainedGraffiti {
+				add("graffiti-not-passed", "proposal requested with graffiti %q; the provider returned %q", p.opts.Graffiti[:], last.ret)
 			} else {
 				add("graffiti-not-zero-on-failure", "proposal requested with graffiti %q although none was obtained (graffiti: %s)", p.opts.Graffiti[:], c.Graffiti)
 			}
 		}
 	}
+	obtained := false
+	for _, p := range o.proposals {
+		if p.returned != nil {
+			obtained = true
+		}
+	}
+	liveSigns, liveSubmits := 0, 0
+	for _, sg := range o.signs {
+		if !sg.dead {
+			liveSigns++
+		}
+	}
+	for _, sub := range o.submits {
+		if !sub.dead {
+			liveSubmits++
+		}
+	}
+	graffitiTrouble := c.Graffiti == "error" || c.GraffitiDelayMs > 0
 	switch {
 	case c.ProposalErr:
 		labels = append(labels, "outcome:no-proposal")
+	case !obtained:
+		// the node double refuses only a request whose context has already ended
+		switch {
+		case o.ctxExpired:
+			labels = append(labels, "outcome:case-deadline-before-proposal")
+		case graffitiTrouble:
+			add("skipped-on-graffiti-failure", "after a slow/failing graffiti lookup the proposal was requested with a context that had already ended although the duty's own context is alive: the proposal is skipped")
+		default:
+			add("proposal-requested-with-dead-context", "the proposal was requested with a context that had already ended although the duty's own context is alive")
+		}
 	case c.ProposalSlot != c.DutySlot:
 		labels = append(labels, "outcome:wrong-slot-not-signed")
 	default:
@@ -603,13 +683,23 @@ func judge(c *Case, o *observation) (fs []finding, labels []string, inconclusive
 			add("block-not-signed", "a proposal for the duty slot was obtained but no block signature was requested")
 			break
 		}
+		if liveSigns == 0 {
+			if o.ctxExpired {
+				labels = append(labels, "outcome:case-deadline-before-signing")
+			} else {
+				add("block-not-signed", "the block signature was requested with a context that had already ended although the duty's own context is alive")
+			}
+			break
+		}
 		if c.SignErr {
 			labels = append(labels, "outcome:sign-failed")
 			break
 		}
 		if !c.Blinded {
-			if len(o.submits) == 0 {
-				add("not-submitted", "the %s block was obtained and signed but never submitted", c.Version)
+			if liveSubmits == 0 && o.ctxExpired {
+				labels = append(labels, "outcome:case-deadline-before-submission")
+			} else if liveSubmits == 0 {
+				add("not-submitted", "the %s block was obtained and signed but never submitted (%d submissions with an ended context)", c.Version, len(o.submits))
 			} else {
 				labels = append(labels, "outcome:submitted-full")
 			}
@@ -620,6 +710,9 @@ func judge(c *Case, o *observation) (fs []finding, labels []string, inconclusive
 			if c.Relays[i].Kind == "relay" {
 				capable = true
 			}
+		}
+		if c.Auction != "result" {
+			labels = append(labels, "blinded-without-auction-result")
 		}
 		if capable && len(o.sends) == 0 {
 			add("blinded-no-relay-asked", "a blinded block was signed and relays that can unblind it exist, but none was asked")
@@ -634,14 +727,38 @@ func judge(c *Case, o *observation) (fs []finding, labels []string, inconclusive
 				}
 			}
 		}
+		failedAttempts := map[int]int{}
+		for _, s := range o.sends {
+			if s.outcome == "err" && s.retSeq > 0 {
+				failedAttempts[s.relay]++
+			}
+		}
+		for _, s := range o.sends {
+			if s.outcome == "late" && s.retWire != "" && s.retSeq < o.returnSeq {
+				for r, n := range failedAttempts {
+					if r != s.relay && n >= 3 {
+						labels = append(labels, "delivered-after-another-relay-used-up-its-retries")
+						break
+					}
+				}
+			}
+		}
 		if len(deliveredRelays) > 1 {
 			labels = append(labels, "several-relays-delivered")
 		}
+		abandoned := -1
+		for _, s := range o.sends {
+			if s.retWire != "" && s.retSeq > o.returnSeq {
+				abandoned = s.relay
+			}
+		}
 		switch {
-		case delivered && len(o.submits) == 0 && o.ctxExpired:
+		case !delivered && liveSubmits == 0 && !o.ctxExpired && abandoned >= 0:
+			add("relay-block-not-submitted", "Propose gave up (its context still alive) while relay %d, which had been sent the signed blinded block, was still answering; that relay then returned the full block and nothing was submitted", abandoned)
+		case delivered && liveSubmits == 0 && o.ctxExpired:
 			inconclusive = "a relay returned the block as the case deadline expired"
-		case delivered && len(o.submits) == 0:
-			add("relay-block-not-submitted", "a relay returned the full block but nothing was submitted")
+		case delivered && liveSubmits == 0:
+			add("relay-block-not-submitted", "a relay returned the full block but nothing was submitted (%d submissions with an ended context)", len(o.submits))
 		case delivered:
 			labels = append(labels, "outcome:submitted-unblinded")
 		case !capable:
@@ -660,7 +777,7 @@ func nontrivial(c *Case) bool {
 	if c.ProposalSlot != c.DutySlot {
 		return true
 	}
-	if c.Accounts != "ok" || c.Randao != "ok" || c.Graffiti == "error" || c.Auction == "error" || c.ProposalErr || c.SignErr || c.SubmitErr {
+	if c.Accounts != "ok" || c.Randao != "ok" || c.Graffiti == "error" || c.GraffitiDelayMs > 0 || c.Auction == "error" || c.ProposalErr || c.SignErr || c.SubmitErr {
 		return true
 	}
 	if c.Blinded {
@@ -710,6 +827,9 @@ func caseLabels(c *Case) []string {
 	if c.ProposerIndex != c.DutyIndex {
 		l = append(l, "other-proposer-index")
 	}
+	if c.GraffitiDelayMs > 0 {
+		l = append(l, "graffiti-slow")
+	}
 	if c.ProposalErr {
 		l = append(l, "fault:proposal")
 	}
@@ -729,6 +849,12 @@ func check(t ev.TB, c *Case) {
 	if ex := excluded(c); ex != "" {
 		ev.Case(false, ev.Hash(c), ex)
 		return
+	}
+	if c.Auction != "result" && len(c.Relays) > 0 {
+		// relays exist only in an auction result (hand-written replay inputs)
+		cc := *c
+		cc.Relays = nil
+		c = &cc
 	}
 	o := run(c)
 	if o.harness != "" {
